@@ -279,3 +279,71 @@ theorem splitJac_entry (vs : List String) (m : Mat) (j a b : Nat) (hj : j < vs.l
 end placement
 
 end GV.C07
+
+/-! ### Rescaled variables: the assembled matrices are rescaled block-wise -/
+
+namespace GV.C07
+
+theorem entry_scaleMat (c : Rat) (m : Mat) (a b : Nat) :
+    entry (scaleMat c m) a b = c * entry m a b := by
+  simp only [entry, scaleMat, List.getD_eq_getElem?_getD, List.getElem?_map]
+  cases h : m[a]? with
+  | none => simp
+  | some row =>
+    simp only [Option.map_some, Option.getD_some, List.getElem?_map]
+    cases h' : row[b]? with
+    | none => simp
+    | some x => simp
+
+theorem scaleMat_length (c : Rat) (m : Mat) : (scaleMat c m).length = m.length := by
+  simp [scaleMat]
+
+theorem scaleMat_rows (c : Rat) (m : Mat) (n : Nat) (h : ∀ row ∈ m, row.length = n) :
+    ∀ row ∈ scaleMat c m, row.length = n := by
+  intro row hrow
+  simp only [scaleMat, List.mem_map] at hrow
+  obtain ⟨r, hr, rfl⟩ := hrow
+  simpa using h r hr
+
+section scaled
+variable (jac : String → String → Option Mat) (sz : String → Nat) (w : String → Rat)
+
+/-- Rescaling keeps the shapes of the disciplines' Jacobians. -/
+theorem scaledJac_wf (hj : JacWF jac sz) : JacWF (scaledJac w jac) sz := by
+  intro f v m hm
+  unfold scaledJac at hm
+  cases hjac : jac f v with
+  | none => simp [hjac] at hm
+  | some m0 =>
+    simp only [hjac, Option.map_some, Option.some.injEq] at hm
+    subst hm
+    exact ⟨by rw [scaleMat_length]; exact (hj f v m0 hjac).1,
+      scaleMat_rows _ _ _ (hj f v m0 hjac).2⟩
+
+/-- Block `(f, v)` of the rescaled system, residual diagonal included (`w f / w f = 1`). -/
+theorem blockOf_scaled (hj : JacWF jac sz) (hw : ∀ s, w s ≠ 0) (isRes : Bool) (f v : String)
+    (a b : Nat) (ha : a < sz f) (hb : b < sz v) :
+    entry (blockOf (scaledJac w jac) sz isRes f v) a b =
+      w f / w v * entry (blockOf jac sz isRes f v) a b := by
+  by_cases hc : (isRes && f == v) = true
+  · have hfv : f = v := by
+      simp only [Bool.and_eq_true, beq_iff_eq] at hc; exact hc.2
+    have hres : isRes = true := by
+      simp only [Bool.and_eq_true] at hc; exact hc.1
+    subst hfv hres
+    rw [blockOf_residual_diag (scaledJac w jac) sz (scaledJac_wf jac sz w hj) f a b ha hb,
+      blockOf_residual_diag jac sz hj f a b ha hb, div_self (hw f), one_mul]
+    unfold scaledJac
+    cases jac f f with
+    | none => simp
+    | some m => simp [entry_scaleMat, div_self (hw f)]
+  · have hc' : (isRes && f == v) = false := by simpa using hc
+    rw [blockOf_plain (scaledJac w jac) sz isRes f v hc' a b, blockOf_plain jac sz isRes f v hc' a b]
+    unfold scaledJac
+    cases jac f v with
+    | none => simp
+    | some m => simp [entry_scaleMat]
+
+end scaled
+
+end GV.C07
